@@ -266,6 +266,7 @@ class Unit:
         rename = None
         sig_override = None
         arm = None
+        arm_tail = None
         nodecreases = False
         optional_loops = set()
         mode = 'clauses'
@@ -320,6 +321,10 @@ class Unit:
             if m:
                 arm = (m.group(1), m.group(2).strip(), m.group(3))
                 continue
+            m = re.match(r'arm-tail\s+(.*)$', t)
+            if m:
+                arm_tail = m.group(1).strip()
+                continue
             if t == 'clauses':
                 mode = 'clauses'
                 continue
@@ -340,7 +345,12 @@ class Unit:
             while raw[b0] != '{':
                 b0 -= 1
             b1 = X.match_brace(raw, b0)
-            raw = arm[1] + ' ' + raw[b0:b1 + 1]
+            block = raw[b0:b1 + 1]
+            if arm_tail:
+                # a statement arm (type `()`) that leaves through `?`: the declared tail expression
+                # (e.g. `Ok(())`) is what the enclosing function goes on to return
+                block = block[:-1] + arm_tail + '\n}'
+            raw = arm[1] + ' ' + block
             name = arm[2]
             rw.bump('R11')
         txt = rw.r1(raw)
@@ -514,7 +524,9 @@ class Unit:
             g_head = re.sub(r'&\s*(\'\w+\s+)?mut\s+', '', g_head)
             g_head = re.sub(r'&\s*(\'\w+\s+)?self\b', 'self', g_head)
             g_head = re.sub(r'\bmut\s+', '', g_head)
-            req2 = re.sub(r'\bold\(\s*(\w+)\s*\)', r'\1', req)
+            req2 = re.sub(r'\(\s*\*\s*old\(\s*(\w+)\s*\)\s*\)', r'\1', req)   # `(*old(p))`: p is by value in the guard
+            req2 = re.sub(r'\*\s*old\(\s*(\w+)\s*\)', r'\1', req2)
+            req2 = re.sub(r'\bold\(\s*(\w+)\s*\)', r'\1', req2)
             g0 = cur_line()
             for ln in g_head.split('\n'):
                 emit(ln)
